@@ -234,4 +234,11 @@ def explore(run, tier):
                     bad[b * 1014 + off] = v
                     cases.append({'k': 'unblock', 'file': 'hex:' + bytes(bad).hex()})
     cases.append({'k': 'unblock', 'file': 'hex:' + (b'\x40' * 1014 + b'\x01' * 1012 + b'\x40\x40').hex()})
+    # whole blocks followed by one or two stray bytes that look like a line end / an end-of-file marker: still not a
+    # whole number of blocks
+    for fill in (b'\x0a', b'\x1a', b'\x0d\x0a', b'\x00', b'\x40', b'\x20'):
+        body = ref_blockify((fill * 4000)[:3000])
+        for kblocks in (1, 2, 3):
+            for extra in (1, 2):
+                cases.append({'k': 'unblock', 'file': 'hex:' + body[:kblocks * 1014 + extra].hex()})
     run.correspond(__name__, cases, use_model=run.use_model)
